@@ -6,6 +6,7 @@ import (
 	"log/slog"
 	"os"
 	"path"
+	"path/filepath"
 
 	"github.com/regclient/regclient/types/manifest"
 	"github.com/regclient/regclient/types/ref"
@@ -67,6 +68,19 @@ func (o *OCIDir) Close(ctx context.Context, r ref.Ref) error {
 				if err != nil {
 					return fmt.Errorf("failed to delete %s: %w", path.Join(blobsPath, blobDir.Name(), digestFile.Name()), err)
 				}
+			}
+		}
+	}
+	// remove temp files left in the top directory by an interrupted write of index.json or oci-layout
+	for _, pattern := range []string{"index.json.*.tmp", imageLayoutFile + ".*.tmp"} {
+		tmpFiles, err := filepath.Glob(filepath.Join(r.Path, pattern))
+		if err != nil {
+			return err
+		}
+		for _, tmpFile := range tmpFiles {
+			err = os.Remove(tmpFile)
+			if err != nil {
+				return fmt.Errorf("failed to delete %s: %w", tmpFile, err)
 			}
 		}
 	}
